@@ -10,7 +10,7 @@ def _c09(tier):
         for op in (0, 1, 2):
             rmax = (nn - 1) if op == 1 else (2 * nn - 1)
             jobs.append(dict(sub="residues", enum=True, fix=dict(k=k, op=op, r=(0, rmax))))
-    mult = 1 if tier == "quick" else 20
+    mult = 1 if tier == "quick" else 80
     for k in range(0, 17):
         jobs.append(dict(sub="kernel", count=geo(k, 6000, 7, 40) * mult, fix=dict(k=k)))
     for k in range(0, 15):
